@@ -11,6 +11,7 @@ Inductive hstep :=
 | HUpd (q r : Z)            (* t.update(Time(q, r)) *)
 | HUpdAdd (q r d : Z)       (* t.update(Time(q, r) + d) *)
 | HUpdFrom (x : Z)          (* t.update(Time.from_float(x)) *)
+| HAdd (d : Z)              (* t = t + d : the object is now the RESULT of an addition (a fresh value) *)
 | HCopy.                    (* t = copy(t) | deepcopy(t) | pickle round trip *)
 
 Definition hstep_apply (t : time) (s : hstep) : time :=
@@ -18,6 +19,7 @@ Definition hstep_apply (t : time) (s : hstep) : time :=
   | HNew q r | HUpd q r => mkTime (of_bits q) (of_bits r)
   | HFrom x | HUpdFrom x => from_float (of_bits x)
   | HUpdAdd q r d => time_add (mkTime (of_bits q) (of_bits r)) (of_bits d)
+  | HAdd d => time_add t (of_bits d)
   | HCopy => t
   end.
 
